@@ -33,6 +33,11 @@ def main(run):
     run.extra["isel_tables"] = isel.gen_tables()
     ok = run.proof("Props/C02.v")
     progs, feats = c01.gen_programs(run, n, 25 if quick else 60, 3 if quick else 5, False)
+    # a few long functions (well over 64 basic blocks each: block indices need more than one LEB128 byte, deep dispatch)
+    for _ in range(3 if quick else 12):
+        g = core.Gen(run.rng, max_stmts=140, max_depth=2)
+        g.long_main = True
+        progs.append(g.program())
     nat = c01.compile_run_all(progs, work, "native", "n")
     was = c01.compile_run_all(progs, work, "wasm", "w")
     both = 0
